@@ -47,15 +47,15 @@ def smart_vec (params : List (Value N)) : List (Value N) :=
 /-- `at` (src/stdlib/common.rs) -/
 def at_ (off : Nat) (params : List (Value N)) : Except NativeError (Value N) :=
   match params with
-  | [.arr items, .num pos] =>
-      ((get_index pos) >>= fun pos =>
-       match items[pos]? with
-       | some value => .ok value
-       | none => .error (.indexOutOfBounds pos))
   | [.str values, .num index] =>
       ((get_string_index off index) >>= fun index =>
        match values[index]? with
        | some char => .ok (.str [char])
+       | none => .error (.indexOutOfBounds index))
+  | [.arr values, .num index] =>
+      ((get_index index) >>= fun index =>
+       match values[index]? with
+       | some value => .ok value
        | none => .error (.indexOutOfBounds index))
   | [_, _] => .error .wrongParameterType
   | _ => .error (.wrongParameterCount 2)
